@@ -346,6 +346,9 @@ write_value(std::ostream &s, Val v) {
 template <typename Val>
 typename std::enable_if<!is_complex<Val>::value, std::ostream&>::type
 write_value(std::ostream &s, Val v) {
+    // 8bit integers should be written as numbers, not as characters
+    // (this is what mm_reader expects).
+    if (std::is_same<Val, char>::value) return s << static_cast<int>(v);
     return s << std::scientific << std::setprecision(20) << v;
 }
 
